@@ -370,8 +370,9 @@ def _is_text(bs): return all(x < 128 and (chr(x).isprintable() or chr(x).isspace
 def zone(c):
     if c.get('op') not in ('safety', 'spec', 'cli'): return None
     d = data_of(c)
-    looks_vmdk = c['fmt'] == 'vmdk' or c['op'] == 'cli'
-    if looks_vmdk:
+    # a command-line case belongs to a zone only when detection actually chose the inspector the zone is about
+    det = (c.get('lib') or [None])[0] if c['op'] == 'cli' else c['fmt']
+    if det == 'vmdk':
         sparse = d[:4] == b'KDMV' and le(d, 4, 4) in (1, 2, 3)
         if not sparse:
             # F1: the descriptor region at offset 0 (min_length 4) is parsed once, from what the first chunk(s) delivered
@@ -394,7 +395,7 @@ def zone(c):
                 same = lambda a, b: fh[a:b] == h[a:b]
                 if same(0, 8) and same(28, 44) and fh[:72] != h[:56] + fh[56:64] + h[64:72]:
                     return 'F5'
-    if c['fmt'] == 'vhdx' or c['op'] == 'cli':
+    if det == 'vhdx':
         # F7: the VHDX inspector raises on the region table (signature / count) and is frozen complete and matching
         if d[:8] == b'vhdxfile' and len(d) >= 256 * 1024:
             t = d[192 * 1024:256 * 1024]
@@ -467,6 +468,7 @@ def extra_checks(rng, tier):
     flags = []
     if parser is not None:
         for a in parser._actions:
+            if isinstance(a, (argparse._HelpAction, argparse._VersionAction)): continue
             for o in a.option_strings:
                 if o not in ('-h', '--help', '-v', '--verbose', '-i', '--image'):
                     flags.append((o, a.nargs == 0))
